@@ -76,10 +76,14 @@ RETRY:
 		} else if pkgErrors.Cause(err) == ErrCommitLogReadonly && r.log.IsReadonly() {
 			// The log was set to readonly while we were trying to read.
 			return nil, 0, 0, 0, ErrCommitLogReadonly
-		} else if pkgErrors.Cause(err) == ErrSegmentReplaced {
+		} else if cause := pkgErrors.Cause(err); cause == ErrSegmentReplaced || cause == ErrSegmentClosed {
 			// ErrSegmentReplaced indicates we attempted to read from a log
 			// segment that was replaced due to compaction, so reinitialize the
 			// contextReader and try again to read from the new segment.
+			// ErrSegmentClosed on a log that is itself neither closed nor
+			// deleted indicates the segment was removed by the retention
+			// policy: likewise continue with what is still retained from the
+			// reader's offset on.
 			if r.uncommitted {
 				r.ctxReader, err = r.log.newReaderUncommitted(r.offset)
 			} else {
